@@ -19,11 +19,11 @@ U(name="U.gf.check", harness="harness/gf_check.c", mode="D", enforce="gf_poly_ch
   replace=["gf_poly_eval"], functions=["gf_poly_check"], props=["C02"])
 
 U(name="U.gf.pack", harness="harness/gf_pack.c", mode="D", enforce="polyseed_data_to_poly",
-  functions=["polyseed_data_to_poly"], unwind=20,
+  functions=["polyseed_data_to_poly"],
   exact_loops=[("polyseed_data_to_poly", 0, 15), ("polyseed_data_to_poly", 1, "<=3 per word")],
   props=["C01", "C03", "C11", "C13"])
 U(name="U.gf.unpack", harness="harness/gf_unpack.c", mode="D", enforce="polyseed_poly_to_data",
-  functions=["polyseed_poly_to_data"], unwind=20,
+  functions=["polyseed_poly_to_data"],
   exact_loops=[("polyseed_poly_to_data", 0, 15), ("polyseed_poly_to_data", 1, "<=3 per word")],
   props=["C01", "C13", "C04"])
 U(name="L.pack.inv1", harness="harness/lem_pack_inverse.c", mode="L", unwind=40,
@@ -55,5 +55,26 @@ U(name="U.ft.supported", harness="harness/ft_supported.c", mode="D", enforce="po
 U(name="U.ft.enable", harness="harness/ft_enable.c", mode="D", enforce="polyseed_enable_features",
   functions=["polyseed_enable_features"], exact_loops=[("polyseed_enable_features", 0, 3)],
   props=["C10", "C13", "C20"])
+
+# ---------------------------------------------------------------- API, mode D
+U(name="U.api.keygen", harness="harness/api_keygen.c", mode="D", enforce="polyseed_keygen",
+  functions=["polyseed_keygen", "store32"], unwind=40, props=["C04", "C13", "C18"])
+
+U(name="U.api.free", harness="harness/api_free.c", mode="D", enforce="polyseed_free",
+  functions=["polyseed_free"], unwind=50, props=["C15", "C16", "C13"])
+U(name="U.api.create", harness="harness/api_create.c", mode="D", enforce="polyseed_create",
+  replace=["make_features", "polyseed_features_supported", "birthday_encode", "polyseed_data_to_poly", "gf_poly_encode"],
+  functions=["polyseed_create"], unwind=40, props=["C10", "C11", "C13", "C15", "C18", "C03"])
+U(name="U.api.get_birthday", harness="harness/api_get_birthday.c", mode="D", enforce="polyseed_get_birthday",
+  replace=["birthday_decode"], functions=["polyseed_get_birthday"], props=["C11"])
+U(name="U.api.get_feature", harness="harness/api_get_feature.c", mode="D", enforce="polyseed_get_feature",
+  replace=["get_features"], functions=["polyseed_get_feature"], props=["C10"])
+U(name="U.api.is_encrypted", harness="harness/api_is_encrypted.c", mode="D", enforce="polyseed_is_encrypted",
+  replace=["is_encrypted"], functions=["polyseed_is_encrypted"], props=["C10", "C12"])
+U(name="U.api.store", harness="harness/api_store.c", mode="D", enforce="polyseed_store",
+  replace=["polyseed_data_store"], functions=["polyseed_store"], props=["C06"])
+U(name="U.api.load", harness="harness/api_load.c", mode="D", enforce="polyseed_load",
+  replace=["polyseed_data_load", "polyseed_data_to_poly", "gf_poly_check", "polyseed_features_supported", "polyseed_free"],
+  functions=["polyseed_load"], unwind=50, props=["C06", "C02", "C10", "C13", "C14", "C15"])
 
 BY_NAME = {u.name: u for u in UNITS}
